@@ -154,6 +154,8 @@ def _range_call(inp):
     size = inp.get("size")
     if size is not None and ty == "npint":
         size = np.int64(size)
+    if size is not None and inp.get("sizety"):      # the same whole number as another type
+        size = {"npint": np.int64, "np32int": np.int32, "float": float, "np64": np.float64}[inp["sizety"]](size)
     sr = _typed(f(inp.get("samplerate")), tyof("samplerate"))
     if form is None and name is None:
         if kind == "range":
@@ -202,7 +204,7 @@ def _impl_range(inp):
     return _range_canon(inp, _range_call(inp))
 
 
-_RANGE_HARNESS_KEYS = ("argty", "dtype", "call", "name", "attrs")
+_RANGE_HARNESS_KEYS = ("argty", "dtype", "call", "name", "attrs", "sizety")
 
 
 def _holds_range(ctx, inp, out):
@@ -1066,6 +1068,8 @@ def _range_random_cases(rng, n):
             size = rng.choice([1, 2, 4, 8, 16, 3, 5, 10])
             stop = s0 + size * st
             case = {"kind": "range", "start": rat(s0), "stop": rat(stop), "size": size}
+            if rng.random() < 0.3:
+                case["sizety"] = rng.choice(["npint", "np32int", "float", "np64"])
         else:
             sr = rng.choice([1, 2, 4, 8, 256, 1024, Fraction(1, 2), Fraction(1, 4), Fraction(1, 8)])
             stop = s0 + min(cnt, 64) / Fraction(sr)
@@ -1529,6 +1533,16 @@ def _range_form_cases(rng):
                 if "samplerate" in whole and "step" not in whole:
                     whole["samplerate"] = "1"
                 yield dict(whole, call=form, argty=ty)
+    # the size as int / numpy int / whole float, with a step that is no whole number, every number type of the bounds
+    for sizety in (None, "npint", "np32int", "float", "np64"):
+        for ty in (None, "int", "npint", "np64"):
+            for start, stop, size in (("0", "1", 4), ("1", "4", 2), ("-3", "0", 8), ("0", "3", 3)):
+                c = {"kind": "range", "start": start, "stop": stop, "size": size, "call": rng.choice([0, 3, 5])}
+                if sizety:
+                    c["sizety"] = sizety
+                if ty:
+                    c["argty"] = {"start": ty, "stop": ty}
+                yield c
     # malformed requests in every form
     for form in (0, 2, 3, 6):
         yield {"kind": "range", "start": "0", "stop": "1", "call": form}
@@ -1681,12 +1695,20 @@ def _set_session_cases(ctx):
                     st["recoord"] = {"axis": k, "coords": rats(axes[k]), "how": how}
                     ctx.tally("session:recoord:" + how)
                 q, v = _rand_write(rng, shape, axes, qable, outside=0.15)
+                if steps and rng.random() < (0.6 if st.get("recoord") else 0.2):
+                    # the very query of an earlier call again (x, a neighbour, x again): on re-assigned coordinates it
+                    # addresses another cell or lies outside now
+                    prev = rng.choice(steps)
+                    q = [list(e) for e in prev["query"]]
+                    free = [shape[k] for k in range(nd) if k not in [e[0] for e in q]]
+                    v = prev["value"] if rng.random() < 0.5 else _value(rng, "scalar", free)
+                    ctx.tally("session:query-repeated")
                 st.update(query=q, value=v)
                 x = rng.random()
                 if x < 0.2:
                     st["use"] = "given"
                 if x > 0.7:      # (a sequence into a single cell is rejected as a list / tuple only: no ndarray there)
-                    st["container"] = rng.choice(["tuple", "ndarray"]) if len(q) < nd else "tuple"
+                    st["container"] = rng.choice(["tuple", "ndarray"]) if len(st["query"]) < nd else "tuple"
                 if rng.random() < 0.3:
                     st["call"] = rng.randint(0, 2)
                 steps.append(st)
